@@ -52,15 +52,26 @@ def main():
             if not ok_as:
                 e = lib.first_error(as_out)
                 broken.append({'kind': 'proof', 'name': f'Props/{pid}.v:{e["line"]}', 'detail': e['error']})
-        # the correspondence uses the compiled model; keep the lock so that no other check rewrites Gen/ meanwhile
-        ctx = {'pid': pid, 'tier': a.tier, 'seed': seed, 'model_ok': ok_mk or _model_ok(mod), 'work': _workdir(pid)}
+        # The correspondence uses the compiled model; keep the lock so that no other check rewrites Gen/ meanwhile.
+        # When the translation or a proof is broken, the regenerated model is no longer known to satisfy the
+        # property, so the search for a failing input runs the implementation against the *reference* kernels
+        # (coq/GenRef: the translation of the tree on which every theorem was last checked).
+        ctx = {'pid': pid, 'tier': a.tier, 'seed': seed, 'work': _workdir(pid), 'reference_model': False}
         try:
+            if broken:
+                ctx['reference_model'] = True
+                lib.install_reference_gen()
+                ok_ref, ref_out = lib.make([f'Model/{m}.vo' for m in getattr(mod, 'MODEL_DEPS', ['CheckLib'])])
+                if not ok_ref:
+                    raise RuntimeError('reference model does not build: ' + lib.first_error(ref_out)['error'])
             res = mod.run(ctx)
         except Exception:
             res = {'evaluations': 0, 'distinct_nontrivial': 0, 'rule': 'harness crashed', 'samples': [],
                    'violations': [{'signature': 'harness-error', 'what': traceback.format_exc()[-1500:], 'case': None}]}
         finally:
             _cleanup(ctx['work'])
+            if ctx['reference_model']:
+                lib.translate()
     violations += res.get('violations', [])
 
     known = lib.load_known()
@@ -126,11 +137,6 @@ def main():
     print(f'[{pid}] tier={a.tier} seed={seed} theorems={len(blocks)}/{len(thms)} cases={res.get("evaluations", 0)} '
           f'mismatches={res.get("mismatches", 0)} violations={n_viol} known={len(seen_known)} wall={ev["wall_s"]}s')
     sys.exit(1 if n_viol else 0)
-
-
-def _model_ok(mod):
-    ok, _ = lib.make([f'Model/{m}.vo' for m in getattr(mod, 'MODEL_DEPS', ['CheckLib'])])
-    return ok
 
 
 def _workdir(pid):
